@@ -5,10 +5,14 @@ import (
 	"encoding/hex"
 	"fmt"
 	"runtime"
+	"strconv"
+	"strings"
 	"testing"
 	"time"
 
 	tcpip "github.com/brewlin/net-protocol/protocol"
+	"github.com/brewlin/net-protocol/protocol/network/ipv4"
+	"github.com/brewlin/net-protocol/protocol/transport/udp"
 	"pgregory.net/rapid"
 	"verifharness/codec"
 	"verifharness/evid"
@@ -50,8 +54,39 @@ func runFDOnce(c FDCase) *evid.Failure {
 		return nil
 	}
 	defer fd.Close()
+	// neighbour resolution gives up after 3 x 5 ms here (hook H4), so that a barrage can
+	// contain "resolution failed, then the neighbour speaks" within milliseconds
+	fd.Stack.VerifSetLinkAddrCacheParams(time.Minute, 5*time.Millisecond, 3)
 	fd.Stack.AddLinkAddress(1, netsim.B4, tcpip.LinkAddress(fd.PeerMAC))
+	// a UDP echo service on port 7: answering a datagram from a never-seen neighbour makes the
+	// stack resolve that neighbour
+	echoStop := make(chan struct{})
+	defer close(echoStop)
+	if es, e := netsim.NewSock(fd.Stack, udp.ProtocolNumber, ipv4.ProtocolNumber); e == nil && es.EP.Bind(tcpip.FullAddress{Port: 7}, nil) == nil {
+		go func() {
+			defer es.EP.Close()
+			for {
+				select {
+				case <-echoStop:
+					return
+				default:
+				}
+				var from tcpip.FullAddress
+				if v, err, ok := es.Read(20*time.Millisecond, &from); ok && err == nil {
+					es.EP.Write(tcpip.SlicePayload(v), tcpip.WriteOptions{To: &from})
+				}
+			}
+		}()
+	}
 	for _, h := range c.Frames {
+		if strings.HasPrefix(h, "!sleep") {
+			ms, _ := strconv.Atoi(h[len("!sleep"):])
+			if ms > 100 {
+				ms = 100
+			}
+			time.Sleep(time.Duration(ms) * time.Millisecond)
+			continue
+		}
 		b, _ := hex.DecodeString(h)
 		if len(b) == 0 {
 			continue // a zero-length write on a SEQPACKET socket reads as end-of-file: not a frame
@@ -109,7 +144,16 @@ func genFD(rt *rapid.T) FDCase {
 	peer := []byte{2, 0, 0, 0, 0, 2}
 	for i := 0; i < n; i++ {
 		var b []byte
-		switch rapid.IntRange(0, 4).Draw(rt, "kind") {
+		switch rapid.IntRange(0, 5).Draw(rt, "kind") {
+		case 5: // a never-seen neighbour talks to the echo service, stays silent while the stack
+			// tries to resolve it, and announces itself once resolution has failed (or is under way)
+			k := byte(rapid.IntRange(70, 73).Draw(rt, "stranger"))
+			ip, m := []byte{10, 0, 0, k}, []byte{2, 0, 0, 0, 7, k}
+			dg := codec.BuildIPv4(codec.IPv4Hdr{Src: ip, Dst: a4, Proto: codec.ProtoUDP, ID: uint16(i)}, codec.BuildUDP(ip, a4, 4000, 7, []byte("who is there"), true))
+			c.Frames = append(c.Frames, hex.EncodeToString(codec.BuildEth(mac, m, codec.EtherIPv4, dg)))
+			c.Frames = append(c.Frames, fmt.Sprintf("!sleep%d", rapid.SampledFrom([]int{0, 3, 12, 25, 25}).Draw(rt, "silence")))
+			op := uint16(rapid.SampledFrom([]int{codec.ARPReply, codec.ARPReply, codec.ARPRequest}).Draw(rt, "arpop"))
+			b = codec.BuildEth(mac, m, codec.EtherARP, codec.BuildARP(op, m, ip, mac, a4))
 		case 0: // runt
 			b = make([]byte, rapid.IntRange(1, 15).Draw(rt, "runtlen"))
 		case 1: // header only / header plus a little
